@@ -242,6 +242,10 @@ func (s *Sim) apply(a *Action, fault string) {
 		if c == nil {
 			return
 		}
+		if s.batchMode {
+			s.grantBatch(c, fault)
+			return
+		}
 		switch fault {
 		case "crash-before":
 			s.Crash()
@@ -281,8 +285,13 @@ func (s *Sim) Chaos() {
 	s.phase = "chaos"
 	steps := s.W.Cfg.ChaosSteps
 	if s.replaying {
-		steps = len(s.replay)
+		// this phase's decisions: up to the next phase marker
+		steps = 0
+		for s.rpos+steps < len(s.replay) && s.replay[s.rpos+steps].A != "phase-end" {
+			steps++
+		}
 	}
+	base := s.rpos
 	for i := 0; i < steps; i++ {
 		synctest.Wait()
 		s.collectFinished()
@@ -292,7 +301,7 @@ func (s *Sim) Chaos() {
 		var act *Action
 		fault := ""
 		if s.replaying {
-			d := s.replay[i]
+			d := s.replay[base+i]
 			for _, cls := range classOrder {
 				for j := range en[cls] {
 					if en[cls][j].A == d.A && en[cls][j].K == d.K {
@@ -345,6 +354,14 @@ func (s *Sim) Chaos() {
 		s.record(act, fault)
 		s.apply(act, fault)
 		s.noteState()
+	}
+	if s.replaying {
+		s.rpos = base + steps
+		if s.rpos < len(s.replay) && s.replay[s.rpos].A == "phase-end" {
+			s.rpos++
+		}
+	} else {
+		s.Trace = append(s.Trace, Decision{A: "phase-end"})
 	}
 	// everything after the decision loop must not depend on how many draws the loop made
 	// (a replay makes none): fresh sub-streams
@@ -568,4 +585,51 @@ func (s *Sim) endCanaries(round int) {
 			s.RunCLI("canary-validate", key)
 		}
 	}
+}
+
+// grantBatch (C17): all parked calls of the task are executed and then released together,
+// so that the goroutines of a parallel batch really run concurrently under the race
+// detector. Which of them fail is decided from the PRNG by call identity.
+func (s *Sim) grantBatch(c *Call, fault string) {
+	var batch []*Call
+	for _, p := range s.canonicalPending() {
+		if p.Task == c.Task {
+			batch = append(batch, p)
+		}
+	}
+	if len(batch) <= 1 {
+		s.grant(c, fault)
+		return
+	}
+	s.Stats.NonVacuous["C17.batch"]++
+	s.Probe(fmt.Sprintf("c17.batch>=%d", pow2floor(len(batch))))
+	mode := s.W.Extra["batchFail"] // none, some, all
+	var replies []chan struct{}
+	for _, b := range batch {
+		f := ""
+		switch mode {
+		case "all":
+			f = "reject"
+		case "some":
+			if hash64(fmt.Sprint(s.Seed), b.Desc())%3 == 0 {
+				f = pick(s.rngFault, "reject", "reject", "lost")
+			}
+		}
+		ch := make(chan struct{})
+		orig := b.replyCh()
+		b.setReply(ch) // grant closes the substitute; the real one is closed below
+		s.grant(b, f)
+		replies = append(replies, orig)
+	}
+	for _, ch := range replies {
+		close(ch)
+	}
+}
+
+func pow2floor(n int) int {
+	p := 1
+	for p*2 <= n {
+		p *= 2
+	}
+	return p
 }
